@@ -35,7 +35,52 @@ type Chunk struct {
 	Str bool `json:"str,omitempty"`
 	// Raw: a route function writes this chunk on resp.ResponseWriter, the writer underneath the Response
 	Raw bool `json:"raw,omitempty"`
+	// Ent: a route function writes this chunk as an entity (Response.WriteAsJson of a string of
+	// letters); the bytes are the JSON string, optionally followed by a line feed
+	Ent bool `json:"ent,omitempty"`
 }
+
+func (c Chunk) entity() string {
+	n := c.Size
+	if n > 3000 {
+		n = 3000
+	}
+	return "e" + strconv.Itoa(c.Salt) + strings.Repeat("x", n)
+}
+
+// lengthKeepingWriter does what net/http's response does with a declared Content-Length: once
+// the header is on its way the declared number of body bytes is all the response takes; a write
+// that goes beyond it is refused as a whole with http.ErrContentLength.
+type lengthKeepingWriter struct {
+	rec      *httptest.ResponseRecorder
+	decided  bool
+	declared int64 // -1: none
+	written  int64
+}
+
+func (w *lengthKeepingWriter) Header() http.Header { return w.rec.Header() }
+func (w *lengthKeepingWriter) decide() {
+	if w.decided {
+		return
+	}
+	w.decided, w.declared = true, -1
+	if v := w.rec.Header().Get("Content-Length"); v != "" {
+		if n, err := strconv.ParseInt(v, 10, 64); err == nil && n >= 0 {
+			w.declared = n
+		}
+	}
+}
+func (w *lengthKeepingWriter) WriteHeader(s int) { w.decide(); w.rec.WriteHeader(s) }
+func (w *lengthKeepingWriter) Write(p []byte) (int, error) {
+	w.decide()
+	w.written += int64(len(p))
+	if w.declared >= 0 && w.written > w.declared {
+		return 0, http.ErrContentLength
+	}
+	return w.rec.Write(p)
+}
+func (w *lengthKeepingWriter) WriteString(p string) (int, error) { return w.Write([]byte(p)) }
+func (w *lengthKeepingWriter) Flush()                            { w.decide(); w.rec.Flush() }
 
 func (c Chunk) bytes() []byte {
 	b := make([]byte, c.Size)
@@ -84,6 +129,11 @@ type C07Case struct {
 	// ReuseBuilder: the RouteBuilder of the target route is used again afterwards for another
 	// route with the opposite encoding setting (a built route keeps its own setting)
 	ReuseBuilder bool `json:"reuse_builder,omitempty"`
+	// KeepLength: the writer underneath treats a Content-Length header the way net/http does
+	// (bytes beyond the declared length are refused)
+	KeepLength bool `json:"keep_length,omitempty"`
+	// Compact: PrettyPrintResponses is off (entities are written by the streaming encoder)
+	Compact bool `json:"compact,omitempty"`
 }
 
 // bareWriter hides every optional interface of the recorder.
@@ -103,7 +153,7 @@ func genChunks(t *rapid.T, label string, max int) []Chunk {
 	}
 	var out []Chunk
 	for i := 0; i < n; i++ {
-		out = append(out, Chunk{Size: rapid.SampledFrom(sizes).Draw(t, label+"size"), Rand: rapid.Bool().Draw(t, label+"rand"), Salt: rapid.IntRange(0, 999).Draw(t, label+"salt"), Flush: rapid.IntRange(0, 4).Draw(t, label+"flush") == 0, Str: rapid.IntRange(0, 3).Draw(t, label+"str") == 0, Raw: rapid.IntRange(0, 7).Draw(t, label+"raw") == 0})
+		out = append(out, Chunk{Size: rapid.SampledFrom(sizes).Draw(t, label+"size"), Rand: rapid.Bool().Draw(t, label+"rand"), Salt: rapid.IntRange(0, 999).Draw(t, label+"salt"), Flush: rapid.IntRange(0, 4).Draw(t, label+"flush") == 0, Str: rapid.IntRange(0, 3).Draw(t, label+"str") == 0, Raw: rapid.IntRange(0, 7).Draw(t, label+"raw") == 0, Ent: rapid.IntRange(0, 5).Draw(t, label+"ent") == 0})
 	}
 	return out
 }
@@ -113,7 +163,7 @@ func genC07(t *rapid.T) C07Case {
 	c.Provider = rapid.SampledFrom([]string{"pool", "bounded0", "bounded1", "bounded4"}).Draw(t, "provider")
 	c.ContainerOn = rapid.Bool().Draw(t, "containeron")
 	c.RouteEnc = rapid.SampledFrom([]string{"", "", "on", "off"}).Draw(t, "routeenc")
-	c.Target = rapid.SampledFrom([]string{"route", "route", "route", "noroute", "handle", "handlewf", "nested"}).Draw(t, "target")
+	c.Target = rapid.SampledFrom([]string{"route", "route", "route", "noroute", "handle", "handlewf", "nested", "nestedwf", "nesteddisp"}).Draw(t, "target")
 	c.Via = harness.ViaServe
 	if (c.Target == "route" || c.Target == "noroute") && rapid.Bool().Draw(t, "viadispatch") {
 		c.Via = harness.ViaDispatch
@@ -146,11 +196,35 @@ func genC07(t *rapid.T) C07Case {
 	c.FlipAfter = rapid.IntRange(0, 3).Draw(t, "flipafter") == 0
 	c.NoFlusher = rapid.IntRange(0, 4).Draw(t, "noflusher") == 0
 	c.ReuseBuilder = rapid.IntRange(0, 3).Draw(t, "reusebuilder") == 0
+	c.KeepLength = rapid.Bool().Draw(t, "keeplength")
+	c.Compact = rapid.IntRange(0, 3).Draw(t, "compact") == 0
 	return c
 }
 
 type c07run struct {
 	written bytes.Buffer // the bytes handed to the response, in order
+	optNL   []int        // offsets in written at which the response may carry one extra line feed (end of an entity)
+	refused []string     // writes the response did not take although nothing underneath ever fails
+}
+
+// matchesWritten compares a body with the bytes written, allowing one line feed at each of the
+// optional positions.
+func matchesWritten(got, want []byte, opt []int) bool {
+	if len(opt) == 0 {
+		return bytes.Equal(got, want)
+	}
+	p := opt[0]
+	if p > len(want) || len(got) < p || !bytes.Equal(got[:p], want[:p]) {
+		return false
+	}
+	rest := make([]int, 0, len(opt)-1)
+	for _, o := range opt[1:] {
+		rest = append(rest, o-p)
+	}
+	if matchesWritten(got[p:], want[p:], rest) {
+		return true
+	}
+	return len(got) > p && got[p] == '\n' && matchesWritten(got[p+1:], want[p:], rest)
 }
 
 func (r *c07run) write(w io.Writer, chunks []Chunk) {
@@ -160,13 +234,26 @@ func (r *c07run) write(w io.Writer, chunks []Chunk) {
 			w = resp.ResponseWriter
 		}
 		var n int
-		if ch.Str {
-			n, _ = io.WriteString(w, string(b))
-		} else {
-			n, _ = w.Write(b)
-		}
-		if n > 0 {
+		var err error
+		if resp, ok := w.(*restful.Response); ok && ch.Ent && !ch.Raw {
+			b = []byte(strconv.Quote(ch.entity()))
+			if err = resp.WriteAsJson(ch.entity()); err == nil {
+				n = len(b)
+			}
 			r.written.Write(b[:n])
+			r.optNL = append(r.optNL, r.written.Len())
+		} else {
+			if ch.Str {
+				n, err = io.WriteString(w, string(b))
+			} else {
+				n, err = w.Write(b)
+			}
+			if n > 0 {
+				r.written.Write(b[:n])
+			}
+		}
+		if err != nil || n != len(b) {
+			r.refused = append(r.refused, fmt.Sprintf("%d bytes handed over, %d taken, error %v", len(b), n, err))
 		}
 		if ch.Flush {
 			if f, ok := w.(http.Flusher); ok {
@@ -181,9 +268,19 @@ func checkC07(c C07Case) (vs []*Violation) {
 	defer harness.ResetGlobals()
 	ledger := harness.NewLedger(harness.ProviderFor(c.Provider))
 	restful.SetCompressorProvider(ledger)
+	restful.PrettyPrintResponses = !c.Compact
 	run := &c07run{}
 
+	// Nobody can add a Content-Encoding once the header is on its way: an outer container that
+	// does not encode itself must not have written anything before the inner one, which does,
+	// gets the request (with HandleWithFilter the outer container's filters run around the inner
+	// container). Writing first and announcing a coding afterwards is the caller's mistake, not
+	// a response the statement speaks about.
+	outerWrites := !((c.Target == "nestedwf" || c.Target == "nesteddisp") && !c.ContainerOn)
+	outer := true
 	newContainer := func(on bool) *restful.Container {
+		isOuter := outer
+		outer = false
 		ct := restful.NewContainer()
 		ct.EnableContentEncoding(on)
 		ct.ServiceErrorHandler(func(se restful.ServiceError, req *restful.Request, resp *restful.Response) {
@@ -201,9 +298,14 @@ func checkC07(c C07Case) (vs []*Violation) {
 		}
 		if c.HasFilter {
 			ct.Filter(func(req *restful.Request, resp *restful.Response, chain *restful.FilterChain) {
-				run.write(resp, c.FilterPre)
+				if !isOuter || outerWrites {
+					run.write(resp, c.FilterPre)
+				}
 				chain.ProcessFilter(req, resp)
-				run.write(resp, c.FilterPost)
+				if !isOuter || outerWrites {
+					// (nor can it append plain bytes behind the coded stream the inner container closed)
+					run.write(resp, c.FilterPost)
+				}
 			})
 		}
 		return ct
@@ -254,10 +356,19 @@ func checkC07(c C07Case) (vs []*Violation) {
 	case "handlewf":
 		ct.HandleWithFilter("/hf/", plain)
 		path = "/hf/a"
-	case "nested":
+	case "nested", "nestedwf", "nesteddisp":
+		// a second container below the first: mounted with Handle, with HandleWithFilter (the
+		// writer it receives is then wrapped in a *Response), or through its Dispatch method
 		inner := newContainer(true)
 		addRoutes(inner, "/inner")
-		ct.Handle("/inner/", inner)
+		switch c.Target {
+		case "nested":
+			ct.Handle("/inner/", inner)
+		case "nestedwf":
+			ct.HandleWithFilter("/inner/", inner)
+		default:
+			ct.HandleWithFilter("/inner/", http.HandlerFunc(inner.Dispatch))
+		}
 		path = "/inner/x"
 	}
 	ct.EnableContentEncoding(c.ContainerOn) // the value in force when the request arrives
@@ -274,8 +385,11 @@ func checkC07(c C07Case) (vs []*Violation) {
 	func() {
 		defer func() { panicked = recover() }()
 		var hw http.ResponseWriter = w
+		if c.KeepLength {
+			hw = &lengthKeepingWriter{rec: w}
+		}
 		if c.NoFlusher {
-			hw = bareWriter{w}
+			hw = bareWriter{hw}
 		}
 		if c.Via == harness.ViaServe {
 			ct.ServeHTTP(hw, hr)
@@ -304,7 +418,7 @@ func checkC07(c C07Case) (vs []*Violation) {
 	}
 	if !applied {
 		labels = append(labels, "not_encoded")
-		if want != nil && !bytes.Equal(body, want) {
+		if want != nil && !matchesWritten(body, want, run.optNL) {
 			vs = append(vs, viol("", "%s: no coding was applied but the body (%d bytes) differs from the %d bytes written", desc, len(body), len(want)))
 		}
 	} else {
@@ -321,10 +435,11 @@ func checkC07(c C07Case) (vs []*Violation) {
 			}
 			// was encoding enabled for this request?
 			enabled := c.ContainerOn
-			if c.Target == "nested" {
+			nested := strings.HasPrefix(c.Target, "nested")
+			if nested {
 				enabled = true // outer or inner container switch
 			}
-			if c.Target == "route" || c.Target == "nested" {
+			if c.Target == "route" || nested {
 				if c.RouteEnc == "on" {
 					enabled = true
 				} else if c.RouteEnc == "off" {
@@ -333,7 +448,7 @@ func checkC07(c C07Case) (vs []*Violation) {
 			}
 			if !enabled {
 				sig := ""
-				if c.Via == harness.ViaServe && c.RouteEnc == "off" && (c.ContainerOn || c.Target == "nested") {
+				if c.Via == harness.ViaServe && c.RouteEnc == "off" && (c.ContainerOn || nested) {
 					sig = "D5"
 				}
 				vs = append(vs, viol(sig, "%s: the response is %s-coded although encoding is not enabled for this request (the route's own setting overrides the container's)", desc, coding))
@@ -362,7 +477,7 @@ func checkC07(c C07Case) (vs []*Violation) {
 				if rd.Len() != 0 {
 					vs = append(vs, viol("", "%s: %d bytes follow the end of the %s stream", desc, rd.Len(), coding))
 				}
-				if want != nil && !bytes.Equal(plainBody, want) {
+				if want != nil && !matchesWritten(plainBody, want, run.optNL) {
 					vs = append(vs, viol("", "%s: decoding yields %d bytes, %d bytes were written (first difference at %d)", desc, len(plainBody), len(want), firstDiff(plainBody, want)))
 				}
 				nchunks := len(c.FilterPre) + len(c.FilterPost) + len(c.Handler)
@@ -370,6 +485,15 @@ func checkC07(c C07Case) (vs []*Violation) {
 					nontrivial = true
 				}
 			}
+		}
+	}
+	for _, r := range run.refused {
+		vs = append(vs, viol("", "%s: the response did not take everything that was written to it although the writer underneath accepts every byte: %s", desc, r))
+	}
+	if cl := w.Result().Header["Content-Length"]; len(cl) > 0 && !(c.DefaultRec && c.PanicAfter >= 0) {
+		// nobody in this scenario sets a Content-Length; one that the framework chose has to be true
+		if len(cl) != 1 || cl[0] != strconv.Itoa(len(body)) {
+			vs = append(vs, viol("", "%s: the response announces Content-Length %q and carries %d body bytes", desc, cl, len(body)))
 		}
 	}
 	if h := ledger.Held(); h != 0 {
